@@ -355,6 +355,7 @@ def analyse(desc, model, heating=None, cooling=None, net_kw=None):
     a.heat = [[species.index(s) for s in h.reactants] for h in info.heating]
     a.cool = [[species.index(s) for s in c.reactants] for c in info.cooling]
     a.model = None
+    a.m_model_obj = model
     if model is not None:
         rep = model.call("ode.terms", a.nspec, a.rx, mods, a.heat, a.cool)
         if rep and rep[0] == "error":
